@@ -11,3 +11,7 @@ import Discv5Model.Props.C08
 import Discv5Model.Props.C16
 import Discv5Model.Props.C20
 import Discv5Model.Props.C13
+import Discv5Model.Props.C01
+import Discv5Model.Props.C02
+import Discv5Model.Props.C11
+import Discv5Model.Props.C12
